@@ -63,7 +63,7 @@ Proof.
       * intros p _. change (dbc s2 p = 0 /\ file_h s2 p = 0). split; [apply Hz|apply Hfz].
     + rewrite <- Ep. reflexivity.
   - cbv beta iota zeta in H.
-    destruct (truncate_db_facts s1 (l_commit f) B1 B2 ltac:(rewrite B3; exact Rl)) as [T1 [T2 [T3 [T4 [T5 [T6 [T7 [T8 T9]]]]]]]].
+    destruct (truncate_db_facts s1 (l_commit f) B1 B2 ltac:(rewrite B3; exact Rl)) as [T1 [T2 [T3 [T4 [T5 [T6 [T7 [T8 [T9 _]]]]]]]]].
     assert (Tw : wal_chk (truncate_db s1 (l_commit f)) = wal_chk s1) by (unfold truncate_db, reset_after; rewrite clear_from_wal_chk; reflexivity).
     set (s2 := truncate_db s1 (l_commit f)) in *. cbn zeta in *.
     set (wal2 := match alookup 1 (l_pages f) with Some q => pg_wal q | None => wal_mode s end) in *.
